@@ -1,5 +1,9 @@
 import AwsVerif.Proofs.C04.HostUtils
 import AwsVerif.Proofs.C04.Ipv6Groups
+import AwsVerif.Proofs.C04.PercentDecode
+import AwsVerif.Proofs.C04.CborHeads
+import AwsVerif.Proofs.C04.Uuid
+import AwsVerif.Proofs.C04.GenBridge
 import AwsVerif.Props.C01
 import AwsVerif.Props.C05
 import AwsVerif.Props.C12
@@ -154,6 +158,236 @@ example : spec [102, 101, 56, 48, 58, 58, 49, 37, 50, 53, 101, 116, 104, 48] tru
 example : spec [58, 58, 58] false = false := by decide
 example : spec [49, 58, 50, 58, 51, 58, 52, 58, 53, 58, 54, 58, 55, 58, 56, 58, 57] false = false := by decide
 example : spec [49, 50, 51, 52, 53, 58, 58] false = false := by decide
+
+/-! ### aws_host_utils_is_ipv4 (sscanf on a local copy) -/
+
+/-- `aws_host_utils_is_ipv4` never faults; a text longer than 15 bytes is refused without touching the input, otherwise
+exactly its `len` bytes are read (the guarded `memcpy`) and the verdict is the scan of the NUL-terminated local copy. -/
+theorem c04_ipv4_total_and_reads (inp : List UInt8) :
+    ∃ r, isIpv4 inp = .ok r ∧ (∀ i ∈ r.reads, i < inp.length) ∧
+      (15 < inp.length → r = ⟨false, []⟩) ∧
+      (inp.length ≤ 15 → r = ⟨ipv4Text (AwsVerif.Scanf.cstr inp), List.range' 0 inp.length⟩) := by
+  refine ⟨_, isIpv4_eq inp, ?_, ?_, ?_⟩
+  · intro i hi
+    by_cases h : 15 < inp.length
+    · rw [if_pos h] at hi; cases hi
+    · rw [if_neg h] at hi
+      have := (AwsVerif.Proofs.C04.CborHeads.mem_range'.mp hi).2
+      omega
+  · intro h; rw [if_pos h]
+  · intro h; rw [if_neg (by omega)]
+
+example : (isIpv4 [49, 46, 50, 46, 51, 46, 52]).map (·.verdict) = .ok true := by rfl          -- "1.2.3.4"
+example : (isIpv4 [50, 53, 54, 46, 49, 46, 49, 46, 49]).map (·.verdict) = .ok false := by rfl  -- "256.1.1.1"
+example : (isIpv4 [49, 46, 50, 46, 51, 46, 52, 120]).map (·.verdict) = .ok false := by rfl     -- "1.2.3.4x"
+
+/-! ### percent-decoding: aws_byte_buf_append_decoding_uri + aws_byte_cursor_read_hex_u8 -/
+
+open AwsVerif.PercentDecode in
+/-- `aws_byte_cursor_read_hex_u8` on a cursor of fewer than 2 bytes fails without reading anything — whatever lies (or
+does not lie) behind the view. -/
+theorem c04_read_hex_u8_short_cursor (inp : List UInt8) (off len : Nat) (h : len < 2) :
+    readHexU8 inp off len = .ok none := by
+  have : ¬ hexMinLen ≤ len := by simp [hexMinLen]; omega
+  simp [readHexU8, this]
+
+open AwsVerif.PercentDecode in
+/-- … and on a cursor inside the block it reads exactly `ptr[0]`, `ptr[1]` and never faults. -/
+theorem c04_read_hex_u8_in_view (inp : List UInt8) (off len : Nat) (h : off + len ≤ inp.length) :
+    ∃ r, readHexU8 inp off len = .ok r := by
+  unfold readHexU8
+  by_cases h2 : hexMinLen ≤ len
+  · have h2' : 2 ≤ len := h2
+    rw [if_pos h2]
+    have r0 : AwsVerif.PercentDecode.rd inp off = .ok inp[off] := by
+      simp [AwsVerif.PercentDecode.rd, show off < inp.length by omega]
+    have r1 : AwsVerif.PercentDecode.rd inp (off + 1) = .ok inp[off + 1] := by
+      simp [AwsVerif.PercentDecode.rd, show off + 1 < inp.length by omega]
+    rw [r0, AwsVerif.Proofs.C04.PD.bind_ok, r1, AwsVerif.Proofs.C04.PD.bind_ok]
+    simp only []
+    by_cases hx : AwsVerif.Uri.hexToNum inp[off] ≠ 255 ∧ AwsVerif.Uri.hexToNum inp[off + 1] ≠ 255
+    · rw [if_pos hx]; exact ⟨_, rfl⟩
+    · rw [if_neg hx]; exact ⟨_, rfl⟩
+  · rw [if_neg h2]; exact ⟨_, rfl⟩
+
+open AwsVerif.PercentDecode in
+/-- For every input view (in particular one ending in `%`, `%X` or `%XY`), every prefix already in the buffer and every
+capacity: no read outside the input block, no store outside the (reserved) capacity, and the fuel `cursor->len` is never
+exhausted; the outcome is the pure decoder `Uri.decodeGo` of C13 appended to the prefix. -/
+theorem c04_uridec_spec (pre : List UInt8) (cap : Nat) (inp : List UInt8) :
+    appendDecodingUri pre cap inp =
+      .ok (if pre.length + inp.length > SIZE_MAX then .overflow
+           else
+             let cap' := if cap < pre.length + inp.length then pre.length + inp.length else cap
+             if (AwsVerif.Uri.decodeGo inp).2 then .ok (pre ++ (AwsVerif.Uri.decodeGo inp).1) cap'
+             else .malformed (pre ++ (AwsVerif.Uri.decodeGo inp).1) cap') :=
+  AwsVerif.Proofs.C04.PD.appendDecodingUri_eq pre cap inp
+
+open AwsVerif.PercentDecode in
+theorem c04_uridec_no_oob_total (pre : List UInt8) (cap : Nat) (inp : List UInt8) :
+    ∃ o, appendDecodingUri pre cap inp = .ok o :=
+  ⟨_, c04_uridec_spec pre cap inp⟩
+
+open AwsVerif.PercentDecode in
+/-- what is appended is never longer than the input, the bytes already in the buffer are kept, and the final length is
+within the final capacity -/
+theorem c04_uridec_bounds (pre : List UInt8) (cap : Nat) (inp out : List UInt8) (cap' : Nat)
+    (_hpre : pre.length ≤ cap)
+    (h : appendDecodingUri pre cap inp = .ok (.ok out cap') ∨ appendDecodingUri pre cap inp = .ok (.malformed out cap')) :
+    ∃ d, out = pre ++ d ∧ d.length ≤ inp.length ∧ out.length ≤ cap' ∧ cap ≤ cap' := by
+  rw [c04_uridec_spec] at h
+  have hlen := AwsVerif.Proofs.C04.PD.decodeGo_length inp
+  by_cases ho : pre.length + inp.length > SIZE_MAX
+  · rw [if_pos ho] at h
+    rcases h with h | h <;> cases h
+  · rw [if_neg ho] at h
+    refine ⟨(AwsVerif.Uri.decodeGo inp).1, ?_⟩
+    by_cases hb : (AwsVerif.Uri.decodeGo inp).2 = true
+    · simp only [hb, if_true] at h
+      rcases h with h | h
+      · injection h with h; injection h with h1 h2
+        subst h1; subst h2
+        refine ⟨rfl, hlen, ?_, ?_⟩ <;> first | (simp only [List.length_append]; split <;> omega) | (split <;> omega)
+      · injection h with h; cases h
+    · simp only [hb, Bool.false_eq_true, if_false] at h
+      rcases h with h | h
+      · injection h with h; cases h
+      · injection h with h; injection h with h1 h2
+        subst h1; subst h2
+        refine ⟨rfl, hlen, ?_, ?_⟩ <;> first | (simp only [List.length_append]; split <;> omega) | (split <;> omega)
+
+-- "a%41", "%4" (ends in %X), "%" , "%zz"
+example : AwsVerif.PercentDecode.appendDecodingUri [] 0 [97, 37, 52, 49] = .ok (.ok [97, 65] 4) := by rfl
+example : AwsVerif.PercentDecode.appendDecodingUri [] 0 [37, 52] = .ok (.malformed [] 2) := by rfl
+example : AwsVerif.PercentDecode.appendDecodingUri [7] 1 [37] = .ok (.malformed [7] 2) := by rfl
+example : AwsVerif.PercentDecode.appendDecodingUri [] 9 [37, 122, 122] = .ok (.malformed [] 9) := by rfl
+
+/-! ### CBOR: every head of `cbor_stream_decode`, with the claim table regenerated from streaming.c -/
+
+open AwsVerif.Proofs.C04.CborHeads in
+/-- The regenerated table has a row for each of the 256 initial bytes and every row is safe: its loader reads nothing, the
+initial byte, or exactly the claimed bytes behind it, and string data starts right behind the claimed length bytes.  (An
+edit such as claiming 1 byte in front of `_cbor_load_half`, which reads 2, makes this `decide` fail.) -/
+theorem c04_gen_cbor_claim_table :
+    AwsVerif.Gen.Cbor.decodeTable.length = 256 ∧ AwsVerif.Gen.Cbor.decodeTable.all rowSafe = true :=
+  ⟨AwsVerif.Proofs.C10.gen_table_length, table_rows_safe⟩
+
+open AwsVerif.Proofs.C04.CborHeads in
+/-- For every source (every initial byte, every truncation, including the empty one): `cbor_stream_decode` never
+dereferences a byte outside `[0, source_size)`; the count it reports is `≤ source_size`; when it reports FINISHED every
+byte it dereferenced lies below that count and every byte below that count was either dereferenced or belongs to the string
+view handed to the callback — it claims exactly what it reads; and when it reports NEDATA / ERROR it reports 0 bytes and
+hands out no view. -/
+theorem c04_cbor_head_claims_what_it_reads (src : List UInt8) (h : src.length < 2 ^ 64) :
+    ∃ o, streamDecode src = .ok o ∧ Good src o :=
+  streamDecode_good src h
+
+open AwsVerif.Proofs.C04.CborHeads in
+theorem c04_cbor_head_no_oob (src : List UInt8) (h : src.length < 2 ^ 64) (off : Nat) :
+    streamDecode src ≠ .error (.oob off) := by
+  obtain ⟨o, ho, _⟩ := streamDecode_good src h
+  rw [ho]; intro hh; cases hh
+
+open AwsVerif.Proofs.C04.CborHeads in
+/-- half float 0xF9: two payload bytes are claimed and read; with one payload byte the decoder asks for more data and
+reads only the initial byte -/
+example : streamDecode [0xF9, 0x3C, 0x00] = .ok ⟨.finished, 3, [0, 1, 2], none⟩ := by rfl
+open AwsVerif.Proofs.C04.CborHeads in
+example : streamDecode [0xF9, 0x3C] = .ok ⟨.nedata, 0, [0], none⟩ := by rfl
+open AwsVerif.Proofs.C04.CborHeads in
+example : streamDecode [0x62, 0x61] = .ok ⟨.nedata, 0, [0, 0], none⟩ := by rfl   -- text(2) with 1 byte present
+open AwsVerif.Proofs.C04.CborHeads in
+example : streamDecode [0x62, 0x61, 0x62] = .ok ⟨.finished, 3, [0, 0], some (1, 2)⟩ := by rfl
+
+/-! ### source/uuid.c: aws_uuid_init_from_str / aws_uuid_to_str -/
+
+open AwsVerif.Uuid AwsVerif.Proofs.C04.UuidP in
+/-- `aws_uuid_init_from_str` never faults.  Shorter than 36 bytes: refused (`AWS_ERROR_INVALID_BUFFER_SIZE`) without
+touching the text.  Otherwise exactly the bytes `[0, 36)` are read — never past `len` — and the verdict is the scan of
+those 36 bytes. -/
+theorem c04_uuid_from_str_total_and_reads (inp : List UInt8) :
+    ∃ r, fromStr inp = .ok r ∧ (∀ i ∈ r.reads, i < inp.length) ∧
+      (inp.length < 36 → r.reads = [] ∧ r.res = .error .invalidBufferSize) ∧
+      (36 ≤ inp.length → r.reads = List.range' 0 36 ∧ r.res = parse36 (inp.take 36)) := by
+  by_cases h : inp.length < 36
+  · refine ⟨_, fromStr_short inp h, ?_, ?_, ?_⟩
+    · intro i hi; cases hi
+    · intro _; exact ⟨rfl, rfl⟩
+    · intro h'; omega
+  · refine ⟨_, fromStr_long inp (by omega), ?_, ?_, ?_⟩
+    · intro i hi
+      have := (AwsVerif.Proofs.C04.CborHeads.mem_range'.mp hi).2
+      omega
+    · intro h'; omega
+    · intro _; exact ⟨rfl, rfl⟩
+
+open AwsVerif.Uuid AwsVerif.Proofs.C04.UuidP in
+/-- accepted ⇒ exactly 36 bytes were read (and the text has at least 36) -/
+theorem c04_uuid_accepted_reads_36 (inp : List UInt8) (r : FromRes) (u : List UInt8)
+    (h : fromStr inp = .ok r) (hacc : r.res = .ok u) : 36 ≤ inp.length ∧ r.reads = List.range' 0 36 := by
+  by_cases hs : inp.length < 36
+  · rw [fromStr_short inp hs] at h
+    injection h with h; subst h; cases hacc
+  · rw [fromStr_long inp (by omega)] at h
+    injection h with h; subst h
+    exact ⟨by omega, rfl⟩
+
+open AwsVerif.Uuid AwsVerif.Proofs.C04.UuidP in
+/-- whatever follows the 36th byte is never looked at -/
+theorem c04_uuid_from_str_ignores_tail (a junk : List UInt8) (ha : a.length = 36) :
+    fromStr (a ++ junk) = fromStr a := by
+  rw [fromStr_long (a ++ junk) (by simp; omega), fromStr_long a (by omega)]
+  have : (a ++ junk).take 36 = a.take 36 := by
+    rw [← ha]; simp
+  rw [this]
+
+open AwsVerif.Uuid AwsVerif.Proofs.C04.UuidP in
+/-- `aws_uuid_to_str` on a valid buffer (`len ≤ capacity`): never faults; refuses (`AWS_ERROR_SHORT_BUFFER`, nothing
+written) iff fewer than 37 bytes are free; otherwise writes the 36 characters and the NUL into `[len, len+37)`, leaves
+every other byte of the buffer alone and advances `len` by 36. -/
+theorem c04_uuid_to_str_bounds (u cells : List UInt8) (len : Nat) (hu : u.length = 16) (hl : len ≤ cells.length) :
+    (cells.length - len < 37 → toStr u cells len = .ok (.error .shortBuffer)) ∧
+    (37 ≤ cells.length - len →
+      ∃ cells', toStr u cells len = .ok (.ok (cells', len + 36)) ∧ cells'.length = cells.length ∧
+        cells'.take len = cells.take len ∧ cells'.drop (len + 37) = cells.drop (len + 37) ∧
+        (cells'.drop len).take 36 = text u) := by
+  refine ⟨toStr_short u cells len, ?_⟩
+  intro h
+  have h37 : len + 37 ≤ cells.length := by omega
+  have htl : (text u ++ [0]).length = 37 := by simp [text_length u hu]
+  have htk : (List.take len cells).length = len := by simp; omega
+  refine ⟨_, toStr_ok u cells len hu h37, ?_, ?_, ?_, ?_⟩
+  · simp only [List.length_append, htk, htl, List.length_drop]; omega
+  · rw [List.append_assoc, List.take_left' htk]
+  · have : (List.take len cells ++ (text u ++ [0])).length = len + 37 := by simp [htk, htl]
+    rw [List.drop_left' this]
+  · rw [List.append_assoc, List.drop_left' htk, List.append_assoc]
+    have : (text u).length = 36 := text_length u hu
+    rw [List.take_left' this]
+
+open AwsVerif.Uuid AwsVerif.Proofs.C04.UuidP in
+/-- round trip: the text `aws_uuid_to_str` prints for any 16 bytes is accepted by `aws_uuid_init_from_str` and gives the
+same 16 bytes back (reading exactly those 36 characters) -/
+theorem c04_uuid_roundtrip (u : List UInt8) (hu : u.length = 16) :
+    fromStr (text u) = .ok ⟨.ok u, List.range' 0 36⟩ := by
+  have hl := text_length u hu
+  rw [fromStr_long (text u) (by omega)]
+  have : (text u).take 36 = text u := List.take_of_length_le (by omega)
+  rw [this, parse_text u hu]
+
+-- "123e4567-e89b-12d3-a456-426614174000" is accepted; 35 characters are refused unread; a leading space shifts the scan
+example : (AwsVerif.Uuid.fromStr [49,50,51,101,52,53,54,55,45,101,56,57,98,45,49,50,100,51,45,97,52,53,54,45,52,50,54,54,49,52,49,55,52,48,48,48]).map (·.res)
+    = .ok (.ok [0x12,0x3e,0x45,0x67,0xe8,0x9b,0x12,0xd3,0xa4,0x56,0x42,0x66,0x14,0x17,0x40,0x00]) := by rfl
+example : AwsVerif.Uuid.fromStr (List.replicate 35 48) = .ok ⟨.error .invalidBufferSize, []⟩ := by rfl
+example : (AwsVerif.Uuid.fromStr (List.replicate 36 45)).map (·.res) = .ok (.error .malformed) := by rfl
+
+/-! ### bridge to the constants regenerated from the current source (gen/c04_gen.py) -/
+
+theorem c04_gen_read_hex : type_of% @AwsVerif.Proofs.C04.Bridge.gen_read_hex := AwsVerif.Proofs.C04.Bridge.gen_read_hex
+theorem c04_gen_decode_reserve : type_of% @AwsVerif.Proofs.C04.Bridge.gen_decode_reserve :=
+  AwsVerif.Proofs.C04.Bridge.gen_decode_reserve
+theorem c04_gen_uuid : type_of% @AwsVerif.Proofs.C04.Bridge.gen_uuid := AwsVerif.Proofs.C04.Bridge.gen_uuid
+theorem c04_gen_host_utils : type_of% @AwsVerif.Proofs.C04.Bridge.gen_host_utils := AwsVerif.Proofs.C04.Bridge.gen_host_utils
 
 -- imported per-parser theorems are added here by the integrator
 -- (C05 base64 / hex / UTF-8:            c04_base64_*, c04_hex_*, c04_utf8_*)
